@@ -274,6 +274,9 @@ def corpus():
     lp.lp_packet.cache_policy.cache_policy_type = 1
     lp.lp_packet.fragment = cp['data-min']
     cp['lp-full'] = bytes(lp.encode())
+    # a forwarder nacking an Interest that was sent with a PIT token: both headers, in increasing type order
+    cp['lp-token-nack'] = ts.tlv(0x64, ts.tlv(0x62, b'tk') + ts.tlv(0x0320, ts.tlv(0x0321, b'\x96')) + ts.tlv(0x50, cp['interest']))
+    cp['lp-token-nack-noreason'] = ts.tlv(0x64, ts.tlv(0x62, b'\x00' * 32) + ts.tlv(0x0320, b'') + ts.tlv(0x50, cp['interest']))
     return cp
 
 
